@@ -250,3 +250,31 @@ package collection
 //@   allocates
 //@   ghost at entry: lemma waitstep(tw.tickedPos, tw.numSlots)
 //@   ghost at before scanAndRunTasks#0: lemma modshiftAll(tw.tickedPos, tw.numSlots)
+
+// ---- construction ----
+//@ func NewSafeMap
+//@   property C16
+//@   trusted
+//@   ensures fresh(result) && forall(k.(any), !smH[result][k])
+//@   allocates
+//@   modifies nothing
+
+//@ func (tw *TimingWheel) initSlots
+//@   property C12
+//@   requires tw.numSlots >= 0 && len(tw.slots) == tw.numSlots
+//@   ensures  forall(j.(int), implies(0 <= j && j < tw.numSlots, tw.slots[j] != nil && fresh(tw.slots[j]) && slotIdx[tw.slots[j]] == j))
+//@   modifies elems(tw.slots), slotIdx
+//@   allocates
+//@   ghost at end loop 0: slotIdx[tw.slots[i]] = i
+//@   loop 0: modifies elems(tw.slots), slotIdx
+//@   loop 0: invariant 0 <= i && i <= tw.numSlots
+//@   loop 0: invariant forall(j.(int), implies(0 <= j && j < i, tw.slots[j] != nil && fresh(tw.slots[j]) && slotIdx[tw.slots[j]] == j))
+
+//@ func NewTimingWheelWithTicker
+//@   property C12
+//@   results tw, err
+//@   requires interval > 0 && numSlots > 0
+//@   requires forall(v.(any), implies(listOf[v] != nil, allocated(v) && allocated(listOf[v])))
+//@   ensures  err == nil && wheelOK(tw) && timersOK(tw) && liveOK(tw) && itemsOK(tw)
+//@   ensures  tw.interval == interval && tw.numSlots == numSlots && forall(k.(any), !smHas(tw.timers, k))
+//@   allocates
